@@ -30,18 +30,18 @@ type RuleInfo struct {
 }
 
 type Report struct {
-	Prop     string
-	Tier     string
-	Start    time.Time
-	Prog     *Prog
-	Rules    []*RuleInfo
-	Obs      []*Obligation
-	Notes    []string
-	Assume   []string
-	cur      *RuleInfo
-	Extra    map[string]interface{}
-	Infra    []string // infrastructure failures (exit 2)
-	keyCount map[string]int
+	Prop      string
+	Tier      string
+	Start     time.Time
+	Prog      *Prog
+	Rules     []*RuleInfo
+	Obs       []*Obligation
+	Notes     []string
+	Assume    []string
+	cur       *RuleInfo
+	Extra     map[string]interface{}
+	Infra     []string // infrastructure failures (exit 2)
+	keyCount  map[string]int
 	extraKeys []string // development mode ALL (mutation sweep)
 }
 
